@@ -225,6 +225,15 @@ def generate(ctx):
               b'$.a\t?(@.b\n== 1)', b'$?(@.a == 1&&@.b == 2)', b'$?(@.a==@.b&&@.c==1||@.d==2)', b'$.\xc3\xa9', b'$:a:b', b'$."a b"', b'$[ "a" ]']:
         texts.append(t)
         ctx.add('parse_json_path %s' % gen.hexarg(t), meta=('doc', t))
+    # `last - n` at the i32 boundary (n is read as an i64 and negated with a range check; it was an i32 with saturating_neg,
+    # so that the printout of LastIndex(i32::MIN) was rejected), and the print/parse round trip of the extreme offsets
+    for t in [b'$[last-2147483648]', b'$[last - -2147483648]', b'$[last+-2147483648]', b'$[last-2147483649]', b'$[last - 9223372036854775808]',
+              b'$[last - -9223372036854775808]', b'$[last--2147483647]', b'$[last+2147483647]', b'$[last+2147483648]', b'$[last - 0]', b'$[last + 0]',
+              b'$[-2147483648 to last-2147483648]']:
+        texts.append(t)
+        ctx.add('parse_json_path %s' % gen.hexarg(t), kind='extreme')
+    for want in ['R;I(l-2147483648)', 'R;I(l2147483647)', 'R;I(Sx-2147483648~l-2147483648)', 'R;I(l-2147483647,x2147483647)']:
+        ctx.add('print_parse_json_path %s' % want, meta=('pp', want))
     # raw input: prefixes, single-byte mutations, soups
     alphabet = b'$@.:*[]()?!=<>&|+-,"\\ \t\nlasttoexistsnulltruefalse0123456789eE.u{}a'
     for t in r.sample(texts, min(len(texts), ctx.scale(250, 5000))):
